@@ -18,7 +18,10 @@ NOT_SHOWN = {
          "full_ring_is_cylinder_difference / partial_ring_is_segment unfold the `if` of BHJM_cylinder_segment_internal: the object-oriented wrapper BYPASSES the segment formulas at "
          "360 degrees; that the segment closed form at 360 degrees equals the Cylinder closed form is not shown; invariance of a CylinderSegment under phi -> phi + 360 for both angles: "
          "only the helper arctan_k_tan_2 is proved periodic",
-         "polyline_split_additive / polyline_reverse_negates are about the unmasked one-segment kernel; for det = 0 the inside test answers 'outside' everywhere (repo fix 657dea6)"],
+         "polyline_split_additive / polyline_reverse_negates are about the unmasked one-segment kernel; for det = 0 the inside test answers 'outside' everywhere (repo fix 657dea6)",
+                  "CylinderSegment written one turn further: proved where the prologue maps both ranges to the same representative (`cylseg_angles_plus_360_partial`); for ranges ending at p2 <= 0 it keeps "
+         "representatives 2pi apart and equality would need the quasi-periodicity of the incomplete elliptic integrals in their amplitude (shown: a full turn acts ONLY on the amplitudes, "
+         "`cylseg_full_turn_acts_on_amplitudes`, `cylseg_arctan_continuation_explicit`); a proper segment plus its complement = full ring: closed forms, oracle only"],
  "C14": ["flux / circulation laws for general surfaces and loops and for the elliptic-integral classes: quadrature oracle only",
          "Mathlib has the divergence theorem for boxes only and no Stokes theorem for general loops"],
 }["C13"]
